@@ -101,7 +101,9 @@ impl Counter {
     /// Decrement counter by 1 and return true if crossing limit.
     #[inline(always)]
     pub(crate) fn dec(&self) -> bool {
-        self.counter.fetch_sub(1, Ordering::Relaxed) == self.limit
+        // the stored value is biased by 1 (see `new`); compare the un-biased previous value so the
+        // wake up fires exactly when the worker leaves its limit.
+        self.counter.fetch_sub(1, Ordering::Relaxed) - 1 == self.limit
     }
 
     pub(crate) fn total(&self) -> usize {
